@@ -52,12 +52,16 @@ EXPLANATION = (
 RULE_TEXT = ("instances are found through the class table (BaseBackend subclasses, MRO look-up of _solve/_validate_solver), the "
              "resolved call graph (callers of apply/get_nodes/check_vname) and string templates (roll(, csr_matrix); each obligation "
              "is a CFG dominance / must-pass query, where needed on the CFG pruned by a three-valued evaluation of the branch tests "
-             "under the stated assumption (solver == name, result empty, len == 2, vectorize and backend == 'fortran').")
+             "under the stated assumption (solver == name, result empty, len == 2, vectorize and backend == 'fortran').  Constructs "
+             "are identified by role: single-definition aliases are followed, a guard / look-up / validation extracted into a private "
+             "helper is analysed in the helper and lifted to every call site (R1 validator helpers, R2 marker+flag test, R3 "
+             "validate-before-apply, R4 result handed back to the caller, R6 refusal helper), and frozen broad handlers are keyed by "
+             "the PyRates functions their try body calls.")
 ASSUMPTIONS = [
     "A statement is taken to complete normally unless it is a raise; library calls raising on their own are not modelled, except that "
     "`xs[0]` on an empty list raises IndexError.",
     "Frozen tables (each entry confirmed by reading): VALIDATOR_SHORTCUTS (Julia's prefix match), R4_MUST_RAISE / R4_QUERIES, "
-    "BROAD_HANDLERS (4 best-effort sites), UNRAISED_KNOWN (2 sites outside the pipeline), HISTORY_EXCEPTIONS (JAX tracer failure).",
+    "BROAD_HANDLERS (4 best-effort sites, keyed by module / owning function / own callees of the try body), UNRAISED_KNOWN (2 sites outside the pipeline), HISTORY_EXCEPTIONS (JAX tracer failure).",
 ]
 
 # ------------------------------------------------------------------------------------------------
@@ -75,16 +79,19 @@ R4_MUST_RAISE = {
 R4_QUERIES = {
     "CircuitTemplate.get_edges": "getter: returns the (possibly empty) list of matching edges to the caller",
 }
+# frozen broad handlers, identified by what the try body calls of PyRates' own code (never by statement text or local names):
+# (module, function the site belongs to, own callees the try body may call)
 BROAD_HANDLERS = {
-    (PARSER, "parse_equations", "cg.backend.register_vars([var_info])"):
+    (PARSER, "parse_equations", ("register_vars",)):
         "pre-registration in declaration order is best effort; the expression parser registers the variable again and raises then",
-    (PARSER, "parse_equations", "_, var = cg.add_var(label=arg_name, def_shape=def_shape, **var_info)"):
+    (PARSER, "parse_equations", ("add_var", "register_vars")):
         "same pre-registration; ExpressionParser.parse_expr performs the authoritative add_var",
-    (CG, "ComputeGraph.to_func", "jac_data = self._compute_symbolic_jacobian(include_dfdp=True)"):
+    (CG, "ComputeGraph.to_func", ("_compute_symbolic_jacobian",)):
         "the analytical auto-07p Jacobian is optional (auto falls back to finite differences)",
-    (CG, "ComputeGraph._get_symbolic_rhs", "args, expr = self._node_to_expr(update)"):
+    (CG, "ComputeGraph._get_symbolic_rhs", ("_node_to_expr",)):
         "an auxiliary variable that cannot be expressed symbolically is left unexpanded; only used for the optional Jacobian",
 }
+R3_ENTRIES = ("CircuitTemplate.run", "CircuitTemplate.get_run_func", "CircuitTemplate.get_jacobian_func")
 UNRAISED_KNOWN = {
     ("pyrates/ir/abc.py", "AbstractBaseIR.to_file"): "to_file of an IR object is not part of the compile/run pipeline",
     ("pyrates/ir/abc.py", "AbstractBaseIR.from_file"): "from_file of an IR object is not part of the compile/run pipeline",
@@ -122,8 +129,17 @@ def _truth(v):
 
 
 def _cmp(op, a, b):
-    if a is UNK or b is UNK or isinstance(a, Len) or isinstance(b, Len):
+    if a is UNK or b is UNK:
         return UNK
+    if isinstance(a, Len) or isinstance(b, Len):
+        # `xs == []` / `xs != []` for a list of known length: decidable when the lengths differ, or both are empty
+        la = a.n if isinstance(a, Len) else (len(a) if isinstance(a, list) else None)
+        lb = b.n if isinstance(b, Len) else (len(b) if isinstance(b, list) else None)
+        if la is None or lb is None or not isinstance(op, (ast.Eq, ast.NotEq)):
+            return UNK
+        if la != lb:
+            return isinstance(op, ast.NotEq)
+        return isinstance(op, ast.Eq) if la == 0 else UNK
     try:
         if isinstance(op, ast.Eq):
             return a == b
@@ -160,7 +176,7 @@ def ev(e: ast.AST, env: dict):
         vals = [ev(x, env) for x in e.elts]
         if any(v is UNK or isinstance(v, Len) for v in vals):
             return UNK
-        return list(vals)
+        return tuple(vals) if isinstance(e, ast.Tuple) else list(vals)
     if isinstance(e, ast.UnaryOp) and isinstance(e.op, ast.Not):
         t = _truth(ev(e.operand, env))
         return UNK if t is UNK else (not t)
@@ -365,6 +381,29 @@ def _arg(call: ast.Call, pos: int, kw: str):
     if len(call.args) > pos and not any(isinstance(a, ast.Starred) for a in call.args[:pos + 1]):
         return call.args[pos]
     return None
+
+
+def _is_private(f) -> bool:
+    n = f.node.name
+    return n.startswith("_") and not (n.startswith("__") and n.endswith("__"))
+
+
+def _context_call_sites(ctx, f, contexts, depth=0, _seen=None) -> list:
+    """Call sites (g, call) inside the functions named in `contexts` (qualnames) that run the private helper `f`, directly or
+    through further private helpers.  Lets an obligation attached to a public function follow code extracted from it."""
+    if not _is_private(f) or depth > 3:
+        return []
+    _seen = _seen if _seen is not None else set()
+    if f in _seen:
+        return []
+    _seen.add(f)
+    out = []
+    for g, c in ctx.cg.call_sites_of(f):
+        if g.qualname in contexts:
+            out.append((g, c))
+        else:
+            out += [(h, c2) for h, c2 in _context_call_sites(ctx, g, contexts, depth + 1, _seen)]
+    return out
 
 
 def _calls_of_stmt(st) -> List[ast.Call]:
@@ -867,17 +906,23 @@ def _root_expr(ctx, f, e, depth=0):
     return e
 
 
-def _correlated_guard(ctx, f, cfg, G, S) -> bool:
-    """G sits at the top of the body of `if c:` (c an unmodified parameter), S sits under another `if c:` that this If dominates."""
-    P = parent(G)
-    if not (isinstance(P, ast.If) and G in P.body and isinstance(P.test, ast.Name)):
-        return False
-    c = P.test.id
+def _correlated_guard(ctx, f, cfg, G, S, others=()) -> bool:
+    """The guard G refuses under a condition c (an unmodified parameter): G sits at the top of the body of `if c:` or its test is
+    `c and not <flag>`; S sits under another `if c:` (or in the true arm of `... if c else ...`) that the guard dominates."""
+    if others:
+        if not (len(others) == 1 and isinstance(others[0], ast.Name)):
+            return False
+        c, P = others[0].id, G
+    else:
+        P = parent(G)
+        if not (isinstance(P, ast.If) and G in P.body and isinstance(P.test, ast.Name)):
+            return False
+        c = P.test.id
+        for sib in P.body[:P.body.index(G)]:
+            if any(isinstance(n, (ast.Return, ast.Raise, ast.Break, ast.Continue, ast.Try)) for n in ast.walk(sib)):
+                return False
     if c not in f.params or _stores(f, c):
         return False
-    for sib in P.body[:P.body.index(G)]:
-        if any(isinstance(n, (ast.Return, ast.Raise, ast.Break, ast.Continue, ast.Try)) for n in ast.walk(sib)):
-            return False
     if not cfg.dominates(P, S):
         return False
     for a in ancestors(S):
@@ -899,6 +944,123 @@ def _correlated_guard(ctx, f, cfg, G, S) -> bool:
     return False
 
 
+def _is_backend_expr(ctx, f, e, depth=0) -> bool:
+    """Does `e` denote the backend object?  An attribute / local called `backend`, something typed as a BaseBackend, or a
+    parameter that receives such a value at every call site."""
+    root = _root_expr(ctx, f, e)
+    if isinstance(root, ast.Attribute) and root.attr in ("backend", "_backend"):
+        return True
+    try:
+        classes = ctx.cg.expr_classes(f, root)
+    except Exception:
+        classes = set()
+    base = ctx.repo.get_class(S.BASE_REL, "BaseBackend")
+    if classes and all(base in c.mro for c in classes):
+        return True
+    if isinstance(root, ast.Name):
+        if root.id in f.params and not _stores(f, root.id) and depth < 3:
+            sites = ctx.cg.call_sites_of(f)
+            if sites:
+                acts = [(g, _bind_args(f, c).get(root.id)) for g, c in sites]
+                if all(a is not None and _is_backend_expr(ctx, g, a, depth + 1) for g, a in acts):
+                    return True
+        return root.id == "backend"
+    return False
+
+
+def _flag_tests(ctx, rid, f, cfg, node, flag):
+    """The if statements that test the flag value read at `node` -> [(if statement, expression inside its test)].
+    The read may be bound to a local first (`ok = getattr(backend, flag, True)` ... `if not ok:`)."""
+    st = stmt_of(cfg, node)
+    if isinstance(st, ast.If) and contains(st.test, node):
+        return [(st, node)]
+    if isinstance(st, ast.Assign) and st.value is node and len(st.targets) == 1 and isinstance(st.targets[0], ast.Name):
+        alias = st.targets[0].id
+        if len(_stores(f, alias)) == 1:
+            uses = [n for n in walk_shallow(f.node) if isinstance(n, ast.Name) and n.id == alias and isinstance(n.ctx, ast.Load)]
+            out = []
+            for u in uses:
+                us = stmt_of(cfg, u)
+                if not (isinstance(us, ast.If) and contains(us.test, u)):
+                    out = None
+                    break
+                out.append((us, u))
+            if out:
+                return out
+    raise AnalysisError(f"{rid}: {f.qual}: {flag} is read outside an if test (`{norm(st)}`); unrecognised guard form")
+
+
+def _flag_conjunct(rid, f, st: ast.If, node, flag):
+    """(label of the branch taken when the flag is false, the other conditions that must hold for that branch).
+    Forms: `[not] FLAG`, `a and ... and not FLAG` (refuses on true), `not a or ... or FLAG` (refuses on false)."""
+    e, neg = _strip_not(st.test)
+    if e is node:
+        return ("true" if neg else "false"), []
+    t = st.test
+    if isinstance(t, ast.BoolOp):
+        mine = [v for v in t.values if _strip_not(v)[0] is node]
+        if len(mine) == 1:
+            neg = _strip_not(mine[0])[1]
+            rest = [v for v in t.values if v is not mine[0]]
+            if isinstance(t.op, ast.And) and neg:
+                return "true", rest
+            if isinstance(t.op, ast.Or) and not neg:
+                negated = []
+                for v in rest:
+                    e2, n2 = _strip_not(v)
+                    if not n2:
+                        negated = None
+                        break
+                    negated.append(e2)
+                if negated is not None:
+                    return "false", negated
+    raise AnalysisError(f"{rid}: {f.qual}: the test `{ast.unparse(st.test)}` combines {flag} with other conditions; unrecognised guard form")
+
+
+def _marker_form(ctx, f, test):
+    """(marker attribute, receiver expression, negated) of a test `[not] getattr(x, 'm', False)` / `[not] x.m` (possibly bound to
+    a local first), else None."""
+    e, neg = _strip_not(test)
+    if isinstance(e, ast.Name) and getattr(e, "_parent", None) is not None:
+        v = single_def_value(ctx, f, e)
+        if v is not None:
+            e2, n2 = _strip_not(v)
+            e, neg = e2, neg != n2
+    if isinstance(e, ast.Call) and isinstance(e.func, ast.Name) and e.func.id == "getattr" and len(e.args) >= 2 \
+            and isinstance(e.args[1], ast.Constant) and isinstance(e.args[1].value, str):
+        dflt = e.args[2] if len(e.args) > 2 else None
+        if dflt is not None and not (isinstance(dflt, ast.Constant) and not dflt.value):
+            raise AnalysisError(f"C20-R2: {f.qual}: unrecognised default in `{ast.unparse(e)}`")
+        return e.args[1].value, e.args[0], neg
+    if isinstance(e, ast.Attribute) and isinstance(e.ctx, ast.Load):
+        return e.attr, e.value, neg
+    return None
+
+
+def _constructed_class(ctx, rid, f, recv, marker, chain, depth=0):
+    """Class of the object `recv` denotes in `f`, when it is constructed in `f` or - `recv` being a parameter of an extracted
+    helper - in every caller.  `chain` collects (caller, call statement) pairs: the helper must run on every normal return."""
+    root = _root_expr(ctx, f, recv)
+    rc = ctx.repo.resolve_expr(f.module, root.func) if isinstance(root, ast.Call) and isinstance(root.func, (ast.Name, ast.Attribute)) else None
+    if rc is not None and rc.__class__.__name__ == "ClassInfo":
+        return rc, f
+    if isinstance(root, ast.Name) and root.id in f.params and not _stores(f, root.id) and depth < 3:
+        sites = ctx.cg.call_sites_of(f)
+        found = None
+        for g, c in sites:
+            act = _bind_args(f, c).get(root.id)
+            if act is None:
+                raise AnalysisError(f"{rid}: {g.qual}: cannot see which object `{ast.unparse(c)}` hands over as `{root.id}`")
+            chain.append((g, stmt_of(ctx.cfg(g), c)))
+            cls_g, top = _constructed_class(ctx, rid, g, act, marker, chain, depth + 1)
+            if found is not None and found[0] is not cls_g:
+                raise AnalysisError(f"{rid}: {f.qual} is handed networks of different classes")
+            found = (cls_g, top)
+        if found is not None:
+            return found
+    raise AnalysisError(f"{rid}: {f.qual}: the object whose `{marker}` is tested is not a network constructed here ({ast.unparse(root)})")
+
+
 def r2_capability_flags(ctx, rid):
     base = ctx.repo.get_class(S.BASE_REL, "BaseBackend")
     flags = sorted(a for a in base.attrs if a.startswith("SUPPORTS_"))
@@ -916,25 +1078,20 @@ def r2_capability_flags(ctx, rid):
             if f is None:
                 raise AnalysisError(f"{rid}: {flag} is read at module level in {m.rel} (unrecognised form)")
             cfg = ctx.cfg(f)
-            st = stmt_of(cfg, node)
-            if not (isinstance(st, ast.If) and contains(st.test, node)):
-                raise AnalysisError(f"{rid}: {f.qual}: {flag} is read outside an if test (`{norm(st)}`); unrecognised guard form")
-            e, neg = _strip_not(st.test)
-            if e is not node:
-                raise AnalysisError(f"{rid}: {f.qual}: the test `{ast.unparse(st.test)}` combines {flag} with other conditions; unrecognised guard form")
-            root = _root_expr(ctx, f, recv)
-            if not ((isinstance(root, ast.Attribute) and root.attr == "backend") or (isinstance(root, ast.Name) and root.id == "backend")):
-                raise AnalysisError(f"{rid}: {f.qual}: {flag} is read from `{ast.unparse(root)}`, which is not recognisably the backend object")
-            fail_label = "true" if neg else "false"
-            w = branch_returns(ctx, f, st, fail_label)
-            facts = {"flag": flag, "test": ast.unparse(st.test), "unsupported_branch": fail_label}
-            guards.setdefault(flag, []).append((f, st))
-            if w is None:
-                ctx.ok(rid, f, st, f"the branch taken when {flag} is false can only raise", facts)
-            else:
-                facts["witness"] = cfg.path_str(w)
-                ctx.violation(rid, f, st, f"the branch taken when the backend declares {flag} = False reaches the normal exit "
-                                          f"({cfg.path_str(w)}): the unsupported feature is compiled instead of refused", facts)
+            if not _is_backend_expr(ctx, f, recv):
+                raise AnalysisError(f"{rid}: {f.qual}: {flag} is read from `{ast.unparse(_root_expr(ctx, f, recv))}`, which is not "
+                                    f"recognisably the backend object")
+            for st, tnode in _flag_tests(ctx, rid, f, cfg, node, flag):
+                fail_label, others = _flag_conjunct(rid, f, st, tnode, flag)
+                w = branch_returns(ctx, f, st, fail_label)
+                facts = {"flag": flag, "test": ast.unparse(st.test), "unsupported_branch": fail_label}
+                guards.setdefault(flag, []).append((f, st, others))
+                if w is None:
+                    ctx.ok(rid, f, st, f"the branch taken when {flag} is false can only raise", facts)
+                else:
+                    facts["witness"] = cfg.path_str(w)
+                    ctx.violation(rid, f, st, f"the branch taken when the backend declares {flag} = False reaches the normal exit "
+                                              f"({cfg.path_str(w)}): the unsupported feature is compiled instead of refused", facts)
     # ---- sparse Jacobian: the csr_matrix emission is covered by the guard
     n_feat = 0
     for f in ctx.repo.all_functions():
@@ -944,10 +1101,11 @@ def r2_capability_flags(ctx, rid):
         feats = [st for st in cfg.stmts() if not isinstance(st, ast.Raise) and any("csr_matrix" in s for s in _strings_of(st))]
         if not feats:
             continue
-        gs = [g for (gf, g) in guards.get("SUPPORTS_SPARSE_JACOBIAN", []) if gf == f]
+        gso = [(g, others) for (gf, g, others) in guards.get("SUPPORTS_SPARSE_JACOBIAN", []) if gf == f]
+        gs = [g for g, _ in gso]
         for st in feats:
             n_feat += 1
-            okg = any(cfg.dominates(g, st) or _correlated_guard(ctx, f, cfg, g, st) for g in gs)
+            okg = any((not others and cfg.dominates(g, st)) or _correlated_guard(ctx, f, cfg, g, st, others) for g, others in gso)
             if okg:
                 ctx.ok(rid, f, st, "csr_matrix is emitted only after the SUPPORTS_SPARSE_JACOBIAN test has been passed",
                        {"guards": [norm(g) for g in gs]})
@@ -958,37 +1116,47 @@ def r2_capability_flags(ctx, rid):
     ctx.require(n_feat >= 1, f"{rid}: no statement emitting csr_matrix found (anchor vanished)")
     # ---- ring buffer: CircuitIR.__init__ consults the flag for every network that set the marker
     marker = None
-    for f, G in guards.get("SUPPORTS_EDGE_DELAY_BUFFER", []):
+    for f, G, others in guards.get("SUPPORTS_EDGE_DELAY_BUFFER", []):
         cfg = ctx.cfg(f)
-        P = parent(G)
-        if not (isinstance(P, ast.If) and G in P.body):
+        # the marker test: the nearest dominating `if [not] <network>.<marker>` (nested if, early return, or a conjunct of the flag test)
+        M, mf = None, None
+        if others:
+            forms = [_marker_form(ctx, f, o) for o in others]
+            if len(forms) != 1 or forms[0] is None or forms[0][2]:
+                raise AnalysisError(f"{rid}: {f.qual}: unrecognised conditions next to SUPPORTS_EDGE_DELAY_BUFFER in `{ast.unparse(G.test)}`")
+            M, mf = G, forms[0]
+        else:
+            for d in cfg.dominators(G):
+                if d is G or not isinstance(d, ast.If):
+                    continue
+                form = _marker_form(ctx, f, d.test)
+                if form is None or form[0].startswith("SUPPORTS_"):
+                    continue
+                M, mf = d, form
+                break
+        if M is None:
             raise AnalysisError(f"{rid}: {f.qual}: the SUPPORTS_EDGE_DELAY_BUFFER test is not nested in a test of the network's marker")
-        e, neg = _strip_not(P.test)
-        if isinstance(e, ast.Call) and isinstance(e.func, ast.Name) and e.func.id == "getattr" and len(e.args) >= 2 and isinstance(e.args[1], ast.Constant):
-            marker, recv = e.args[1].value, e.args[0]
-            dflt = e.args[2] if len(e.args) > 2 else None
-            if dflt is not None and not (isinstance(dflt, ast.Constant) and not dflt.value):
-                raise AnalysisError(f"{rid}: {f.qual}: unrecognised default in `{ast.unparse(e)}`")
-        elif isinstance(e, ast.Attribute):
-            marker, recv = e.attr, e.value
-        else:
-            raise AnalysisError(f"{rid}: {f.qual}: unrecognised marker test `{ast.unparse(P.test)}`")
-        if neg:
-            raise AnalysisError(f"{rid}: {f.qual}: negated marker test `{ast.unparse(P.test)}` is not a recognised form")
-        root = _root_expr(ctx, f, recv)
-        rc = ctx.repo.resolve_expr(f.module, root.func) if isinstance(root, ast.Call) else None
-        if rc is None or rc.__class__.__name__ != "ClassInfo":
-            raise AnalysisError(f"{rid}: {f.qual}: the object whose `{marker}` is tested is not a network constructed here ({ast.unparse(root)})")
-        net_cls = rc
-        facts = {"marker": marker, "network_class": net_cls.name, "marker_test": ast.unparse(P.test)}
-        w = find_path(cfg, [cfg.ENTRY], lambda n: n is cfg.EXIT, avoid=lambda n: n is P)
+        marker, recv, neg = mf
+        chain: list = []
+        net_cls, top = _constructed_class(ctx, rid, f, recv, marker, chain)
+        facts = {"marker": marker, "network_class": net_cls.name, "marker_test": ast.unparse(M.test)}
+        w, wf = find_path(cfg, [cfg.ENTRY], lambda n: n is cfg.EXIT, avoid=lambda n: n is M, env={}), f
+        for g, cs in chain:
+            if w is not None:
+                break
+            gcfg = ctx.cfg(g)
+            if cs is None or isinstance(cs, (ast.If, ast.For, ast.While, ast.Try, ast.With)):
+                raise AnalysisError(f"{rid}: {g.qual}: the call of {f.qualname} is not a plain statement (unrecognised form)")
+            w, wf = find_path(gcfg, [gcfg.ENTRY], lambda n: n is gcfg.EXIT, avoid=lambda n, cs=cs: n is cs, env={}), g
+        top_node = M if top == f else [cs for g, cs in chain if g == top][0]
         if w is not None:
-            facts["witness"] = cfg.path_str(w)
-            ctx.violation(rid, f, P, f"{f.qualname} can return normally without testing the network's `{marker}` ({cfg.path_str(w)}): a ring-buffer "
-                                     f"model is handed to a backend that cannot update the buffer", facts, label="marker test on every return")
+            facts["witness"] = ctx.cfg(wf).path_str(w)
+            ctx.violation(rid, top, top_node, f"{wf.qualname} can return normally without testing the network's `{marker}` ({facts['witness']}): "
+                                              f"a ring-buffer model is handed to a backend that cannot update the buffer", facts,
+                          label="marker test on every return")
         else:
-            ctx.ok(rid, f, P, f"every normal return of {f.qualname} passes the `{marker}` test", facts, label="marker test on every return")
-        w = find_path(cfg, succ(cfg, P, "true"), lambda n: n is cfg.EXIT, avoid=lambda n: n is G)
+            ctx.ok(rid, top, top_node, f"every normal return of {top.qualname} passes the `{marker}` test", facts, label="marker test on every return")
+        w = None if M is G else find_path(cfg, succ(cfg, M, "false" if neg else "true"), lambda n: n is cfg.EXIT, avoid=lambda n: n is G)
         if w is not None:
             facts["witness"] = cfg.path_str(w)
             ctx.violation(rid, f, G, f"with `{marker}` set, {f.qualname} can return without consulting SUPPORTS_EDGE_DELAY_BUFFER "
@@ -1078,42 +1246,70 @@ def r3_backend_args(ctx, rid):
     vparams = val_f.params
     ctx.require("backend" in vparams and "vectorize" in vparams, f"{rid}: signature of _validate_backend_args changed")
     sites = [(f, c) for f, c in ctx.cg.call_sites_of(apply_f) if any(k.arg == "backend" for k in c.keywords)]
-    entry = {f.qualname for f, _ in sites}
-    for need in ("CircuitTemplate.run", "CircuitTemplate.get_run_func", "CircuitTemplate.get_jacobian_func"):
-        ctx.require(need in entry, f"{rid}: {need} no longer hands a backend to CircuitTemplate.apply (anchor vanished)")
-    for f, call in sites:
+    site_funcs = {f for f, _ in sites}
+    for need in R3_ENTRIES:
+        ef = ctx.repo.get_func(CIRCUIT_T, need)
+        # the entry point compiles through apply itself or through extracted helpers
+        ctx.require(bool(ctx.cg.reachable([ef]) & site_funcs),
+                    f"{rid}: {need} no longer hands a backend to CircuitTemplate.apply (anchor vanished)")
+
+    def validated_before(f, a_st, want_b: ast.AST, want_v: ast.AST, depth=0):
+        """(good, why): a call of _validate_backend_args with the values `want_b`/`want_v` dominates statement `a_st` of `f` - in
+        `f` itself or, when both values are unmodified parameters of an extracted helper, before every call of that helper."""
         cfg = ctx.cfg(f)
-        a_st = stmt_of(cfg, call)
-        vals = []
-        for c, targets, how in ctx.cg.calls.get(f, []):
-            if val_f in targets:
-                vals.append(c)
-        kw = {k.arg: k.value for k in call.keywords if k.arg}
-        want_b = ast.unparse(kw["backend"])
-        want_v = ast.unparse(kw["vectorize"]) if "vectorize" in kw else None
-        if want_v is None:
-            raise AnalysisError(f"{rid}: {f.qual}: apply is called without vectorize= (unrecognised form)")
-        for nm in (want_b, want_v):
-            if nm.isidentifier() and _stores(f, nm):
-                raise AnalysisError(f"{rid}: {f.qual}: `{nm}` is re-bound; cannot compare validated and compiled settings")
-        good, why = False, "no call of _validate_backend_args dominates the call of apply"
+        sb, sv = ast.unparse(want_b), ast.unparse(want_v)
+        for e in (want_b, want_v):
+            if isinstance(e, ast.Constant):
+                continue
+            if not isinstance(e, ast.Name):
+                raise AnalysisError(f"{rid}: {f.qual}: the setting `{ast.unparse(e)}` is not a plain name or constant (unrecognised form)")
+            if _stores(f, e.id):
+                raise AnalysisError(f"{rid}: {f.qual}: `{e.id}` is re-bound; cannot compare validated and compiled settings")
+        vals = [c for c, targets, how in ctx.cg.calls.get(f, []) if val_f in targets]
+        why = "no call of _validate_backend_args dominates the call of apply"
         for v in vals:
             v_st = stmt_of(cfg, v)
             if not cfg.dominates(v_st, a_st) or v_st is a_st:
                 continue
-            b = _arg(v, vparams.index("backend"), "backend")
-            vz = _arg(v, vparams.index("vectorize"), "vectorize")
-            if b is not None and vz is not None and ast.unparse(b) == want_b and ast.unparse(vz) == want_v:
-                good = True
-                break
+            bnd = _bind_args(val_f, v)
+            b, vz = bnd.get("backend"), bnd.get("vectorize")
+            if b is not None and vz is not None and ast.unparse(b) == sb and ast.unparse(vz) == sv:
+                return True, "", [norm(stmt_of(cfg, x)) for x in vals]
             why = (f"the dominating validation checks (backend={ast.unparse(b) if b is not None else '?'}, "
-                   f"vectorize={ast.unparse(vz) if vz is not None else '?'}) but apply compiles (backend={want_b}, vectorize={want_v})")
-        facts = {"apply": norm(a_st), "validations": [norm(stmt_of(cfg, v)) for v in vals]}
-        if good:
-            ctx.ok(rid, f, a_st, "_validate_backend_args dominates apply and checks the settings that are compiled", facts)
-        else:
-            ctx.violation(rid, f, a_st, f"the template is compiled for a backend without prior validation of the backend arguments: {why}; "
-                                        f"e.g. vectorize=True with the Fortran backend is compiled instead of refused", facts)
+                   f"vectorize={ast.unparse(vz) if vz is not None else '?'}) but apply compiles (backend={sb}, vectorize={sv})")
+        vtexts = [norm(stmt_of(cfg, x)) for x in vals]
+        lift = all(isinstance(e, ast.Name) and e.id in f.params for e in (want_b, want_v)) and depth < 3 \
+            and f.node.name.startswith("_") and not f.node.name.startswith("__")
+        callers = ctx.cg.call_sites_of(f) if lift else []
+        if callers and not vals:
+            for g, c in callers:
+                bnd = _bind_args(f, c)
+                ab, av = bnd.get(want_b.id), bnd.get(want_v.id)
+                if ab is None or av is None:
+                    raise AnalysisError(f"{rid}: {g.qual}: cannot see which backend / vectorize values `{norm(c, 80)}` hands to {f.qualname}")
+                okc, whyc, vt = validated_before(g, stmt_of(ctx.cfg(g), c), ab, av, depth + 1)
+                vtexts += vt
+                if not okc:
+                    return False, f"{f.qualname} does not validate and its caller {g.qualname} does not either: {whyc}", vtexts
+            return True, "", vtexts
+        return False, why, vtexts
+
+    for f, call in sites:
+        cfg = ctx.cfg(f)
+        a_st = stmt_of(cfg, call)
+        kw = {k.arg: k.value for k in call.keywords if k.arg}
+        if "vectorize" not in kw:
+            raise AnalysisError(f"{rid}: {f.qual}: apply is called without vectorize= (unrecognised form)")
+        good, why, vtexts = validated_before(f, a_st, kw["backend"], kw["vectorize"])
+        facts = {"apply": norm(a_st), "validations": vtexts}
+        # one obligation per site; a site inside a helper extracted from the public entry points counts once per entry it serves
+        via = sorted({g.qualname for g, _ in _context_call_sites(ctx, f, R3_ENTRIES)}) if f.qualname not in R3_ENTRIES else []
+        for label in ([f"{norm(a_st, 100)} (compiling for {q})" for q in via] or [None]):
+            if good:
+                ctx.ok(rid, f, a_st, "_validate_backend_args dominates apply and checks the settings that are compiled", facts, label=label)
+            else:
+                ctx.violation(rid, f, a_st, f"the template is compiled for a backend without prior validation of the backend arguments: {why}; "
+                                            f"e.g. vectorize=True with the Fortran backend is compiled instead of refused", facts, label=label)
     # content: (vectorize=True, backend='fortran') can only raise
     for nm in ("backend", "vectorize"):
         if _stores(val_f, nm):
@@ -1157,9 +1353,86 @@ def _indexes_unconditionally(st, name: str) -> bool:
     return False
 
 
+def _result_position(value: ast.AST, is_result: Callable) -> Optional[tuple]:
+    """() when `value` is the result itself, (i,) when it is element i of a tuple display, None otherwise."""
+    if is_result(value):
+        return ()
+    if isinstance(value, ast.Tuple):
+        idx = [i for i, e in enumerate(value.elts) if is_result(e)]
+        if len(idx) == 1 and not any(isinstance(e, ast.Starred) for e in value.elts):
+            return (idx[0],)
+    return None
+
+
+def _bound_name(rid, g, st, call, pos: tuple) -> str:
+    """Local of `g` that receives position `pos` of the value returned by `call` in statement `st`."""
+    if isinstance(st, ast.Assign) and st.value is call and len(st.targets) == 1:
+        t = st.targets[0]
+        if pos == () and isinstance(t, ast.Name):
+            return t.id
+        if len(pos) == 1 and isinstance(t, (ast.Tuple, ast.List)) and len(t.elts) > pos[0] \
+                and not any(isinstance(e, ast.Starred) for e in t.elts) and isinstance(t.elts[pos[0]], ast.Name):
+            return t.elts[pos[0]].id
+    raise AnalysisError(f"{rid}: {g.qual}: the result of the node look-up is not bound to a local name (`{norm(st)}`); unrecognised form")
+
+
+def _r4_lift(ctx, rid, f, pos, must_raise, depth, via):
+    """The look-up result leaves the private helper `f` through its return value (position `pos`): follow it into every caller."""
+    callers = ctx.cg.call_sites_of(f) if (_is_private(f) and depth < 3) else []
+    if not callers:
+        return (f, via, "returns the empty result to its caller")
+    for g, c in callers:
+        gcfg = ctx.cfg(g)
+        cst = stmt_of(gcfg, c)
+        r2 = _bound_name(rid, g, cst, c, pos)
+        w = _r4_follow(ctx, rid, g, cst, r2, must_raise or g.qualname in R4_MUST_RAISE, depth + 1)
+        if w is not None:
+            return w
+    return None
+
+
+def _r4_follow(ctx, rid, f, st, r, must_raise, depth=0):
+    """Under the assumption that the local `r` (bound at `st`) is empty: a witness (function, path, how) of a silent continuation,
+    or None when every continuation passes a reporter.  A private helper that hands `r` back to its callers is followed there."""
+    from engine.dataflow import stmt_defs
+    cfg = ctx.cfg(f)
+
+    def reporter(x):
+        if isinstance(x, ast.Raise):
+            return True
+        if isinstance(x, ast.stmt) and _indexes_unconditionally(x, r):
+            return True
+        if not must_raise and isinstance(x, ast.stmt) and _is_warn(ctx, f, x):
+            return True
+        return False
+
+    def is_r(e):
+        return isinstance(e, ast.Name) and e.id == r
+    hands_back = {id(x): _result_position(x.value, is_r) for x in cfg.stmts()
+                  if isinstance(x, ast.Return) and x.value is not None and _result_position(x.value, is_r) is not None} \
+        if _is_private(f) and ctx.cg.call_sites_of(f) else {}
+
+    def goal(x):
+        return x is cfg.EXIT or (isinstance(x, (ast.stmt, ast.ExceptHandler)) and r in stmt_defs(x))
+    env = {r: Len(0)}
+    eok = _raise_edge_ok(ctx, f)
+    starts = list(cfg.g.successors(st))
+    w = find_path(cfg, starts, goal, avoid=lambda x: reporter(x) or id(x) in hands_back, env=env, edge_ok=eok)
+    if w is not None:
+        end = "the next definition of the result (next loop iteration)" if w[-1] is not cfg.EXIT else "the normal exit"
+        return (f, [st] + w, f"reaches {end}")
+    for x in cfg.stmts():
+        if id(x) in hands_back:
+            wx = find_path(cfg, starts, lambda n, x=x: n is x, avoid=reporter, env=env, edge_ok=eok)
+            if wx is not None:
+                res = _r4_lift(ctx, rid, f, hands_back[id(x)], must_raise, depth, [st] + wx)
+                if res is not None:
+                    return res
+    return None
+
+
 def r4_empty_selection_reported(ctx, rid):
     gn = ctx.repo.get_func(CIRCUIT_T, "CircuitTemplate.get_nodes")
-    from engine.dataflow import stmt_defs
     n = 0
     for f, call in sorted(ctx.cg.call_sites_of(gn), key=lambda fc: (fc[0].module.rel, fc[1].lineno)):
         if f == gn:
@@ -1179,34 +1452,36 @@ def r4_empty_selection_reported(ctx, rid):
             continue
         cfg = ctx.cfg(f)
         st = stmt_of(cfg, call)
-        if not (isinstance(st, ast.Assign) and st.value is call and len(st.targets) == 1 and isinstance(st.targets[0], ast.Name)):
-            raise AnalysisError(f"{rid}: {f.qual}: the result of get_nodes is not bound to a local name (`{norm(st)}`); unrecognised form")
-        r = st.targets[0].id
-        must_raise = f.qualname in R4_MUST_RAISE
+        # a look-up extracted from a must-raise function into a private helper inherits the requirement and counts once per use
+        uses = [] if f.qualname in R4_MUST_RAISE else _context_call_sites(ctx, f, R4_MUST_RAISE)
+        must_raise = f.qualname in R4_MUST_RAISE or bool(uses)
         n += 1
-
-        def reporter(x):
-            if isinstance(x, ast.Raise):
-                return True
-            if isinstance(x, ast.stmt) and _indexes_unconditionally(x, r):
-                return True
-            if not must_raise and isinstance(x, ast.stmt) and _is_warn(ctx, f, x):
-                return True
-            return False
-
-        def goal(x):
-            return x is cfg.EXIT or (isinstance(x, (ast.stmt, ast.ExceptHandler)) and r in stmt_defs(x))
-        w = find_path(cfg, list(cfg.g.successors(st)), goal, avoid=reporter, env={r: Len(0)}, edge_ok=_raise_edge_ok(ctx, f))
+        if isinstance(st, ast.Return) and st.value is not None and _result_position(st.value, lambda e: e is call) is not None:
+            r = "<returned>"
+            wit = _r4_lift(ctx, rid, f, _result_position(st.value, lambda e: e is call), must_raise, 0, [st])
+        else:
+            r = _bound_name(rid, f, st, call, ())
+            wit = _r4_follow(ctx, rid, f, st, r, must_raise)
         has_var = _arg(call, 1, "var_identifier") is not None
         facts = {"result": r, "selects_by": "node path and variable" if has_var else "node path", "required": "raise" if must_raise else "warn or raise"}
-        if w is None:
-            ctx.ok(rid, f, st, f"when `{r}` is empty every continuation passes a {'raise' if must_raise else 'warn/raise'}", facts)
-        else:
-            end = "the next definition of the result (next loop iteration)" if w[-1] is not cfg.EXIT else "the normal exit"
-            facts["witness"] = cfg.path_str([st] + w)
-            ctx.violation(rid, f, st, f"when the path selects nothing (`{r}` empty) the function reaches {end} without "
-                                      f"{'raising' if must_raise else 'a warning or an exception'} ({cfg.path_str([st] + w)}): the "
-                                      f"{'requested output is silently omitted' if must_raise else 'input / parameter update is silently dropped'}", facts)
+        if uses:
+            facts["look_up"] = f"{f.qualname}: {norm(st, 100)}"
+        places, seen_labels = [], {}
+        for g, c in (uses or [(f, call)]):
+            gst = stmt_of(ctx.cfg(g), c)
+            k = seen_labels.get((g, norm(gst)), 0)
+            seen_labels[(g, norm(gst))] = k + 1
+            places.append((g, gst, None if k == 0 else f"{norm(gst)} #{k + 1}"))
+        for g, gst, label in places:
+            if wit is None:
+                ctx.ok(rid, g, gst, f"when `{r}` is empty every continuation passes a {'raise' if must_raise else 'warn/raise'}", facts, label=label)
+            else:
+                wf, wpath, how = wit
+                ps = ctx.cfg(wf).path_str(wpath)
+                ctx.violation(rid, g, gst, f"when the path selects nothing (`{r}` empty) {wf.qualname} {how} without "
+                                           f"{'raising' if must_raise else 'a warning or an exception'} ({ps}): the "
+                                           f"{'requested output is silently omitted' if must_raise else 'input / parameter update is silently dropped'}",
+                              dict(facts, witness=ps), label=label)
     ctx.require(n >= 1, f"{rid}: no get_nodes look-up of a user path found")
 
 
@@ -1262,23 +1537,45 @@ def r5_raised_not_built(ctx, rid):
     seen_keys = set()
     raising_cache: Dict[object, bool] = {}
 
-    def may_raise_own(f, body) -> Optional[str]:
+    def swallowed(f, body):
+        """(own, sw): `own` = names of PyRates' own functions the try body calls (plus 'raise' for a raise statement and '?name' for
+        a call that cannot be resolved); `sw` = the subset that can raise, i.e. what a handler around `body` swallows, with a description."""
+        own: set = set()
+        sw: Dict[str, str] = {}
         for b in body:
             for x in ast.walk(b):
                 if isinstance(x, ast.Raise):
-                    return "a raise statement"
+                    own.add("raise")
+                    sw["raise"] = "a raise statement"
         calls = {id(c): (c, t, how) for c, t, how in ctx.cg.calls.get(f, [])}
         for b in body:
             for x in ast.walk(b):
                 if isinstance(x, ast.Call) and id(x) in calls:
                     c, targets, how = calls[id(x)]
                     if how.startswith("unresolved"):
-                        return f"the unresolved call {ast.unparse(c.func)}(...)"
+                        nm = "?" + (call_name(c) or ast.unparse(c.func))
+                        own.add(nm)
+                        sw[nm] = f"the unresolved call {ast.unparse(c.func)}(...)"
                     for t in targets:
+                        own.add(t.node.name)
                         if t not in raising_cache:
                             raising_cache[t] = any(any(isinstance(y, ast.Raise) for y in ast.walk(g.node)) for g in ctx.cg.reachable([t]))
                         if raising_cache[t]:
-                            return f"{t.qualname}, which can raise"
+                            sw.setdefault(t.node.name, f"{t.qualname}, which can raise")
+        return own, sw
+
+    def frozen_site(f, own: set):
+        """The frozen best-effort site this handler is: same module, the frozen function itself or a private helper extracted
+        from it, and the try body calls nothing of PyRates beyond the functions whose failure the entry was justified for."""
+        for key, why in BROAD_HANDLERS.items():
+            rel, qn, allowed = key
+            if f.module.rel != rel or not own or not own <= set(allowed):
+                continue
+            if f.qualname == qn or f.qualname.startswith(qn + "."):
+                return key
+            owner = ctx.repo.find_func(rel, qn)
+            if owner is not None and _is_private(f) and f in ctx.cg.reachable([owner]):
+                return key
         return None
 
     for f in ctx.repo.all_functions():
@@ -1296,19 +1593,21 @@ def r5_raised_not_built(ctx, rid):
                 if reports:
                     ctx.ok(rid, f, tr.body[0], "broad handler re-raises or reports", label=f"broad handler around {norm(tr.body[0], 100)}", nontrivial=False)
                     continue
-                key = (f.module.rel, f.qualname, norm(tr.body[0]))
-                if key in BROAD_HANDLERS:
+                own, sw = swallowed(f, tr.body)
+                key = frozen_site(f, own)
+                if key is not None:
                     seen_keys.add(key)
-                    ctx.ok(rid, f, tr.body[0], f"frozen best-effort site: {BROAD_HANDLERS[key]}",
-                           label=f"broad handler around {norm(tr.body[0], 100)}", nontrivial=False)
+                    ctx.ok(rid, f, tr.body[0], f"frozen best-effort site: {BROAD_HANDLERS[key]}", {"calls": sorted(own), "swallows": sorted(sw)},
+                           label=f"broad handler around calls of {'/'.join(sorted(own))}", nontrivial=False)
                     continue
-                what = may_raise_own(f, tr.body)
-                if what is None:
-                    ctx.info(rid, f, tr.body[0], "broad silent handler around library calls only (no PyRates guard can be swallowed)")
+                if not sw:
+                    ctx.info(rid, f, tr.body[0], f"broad silent handler around calls that raise nothing of PyRates' own (own callees: {sorted(own)}); "
+                                                 f"no PyRates guard can be swallowed")
                     continue
+                what = sw[sorted(sw)[0]]
                 ctx.violation(rid, f, tr.body[0], f"a broad `except {'/'.join(hn) if hn else ''}` whose body neither re-raises nor reports swallows "
-                                                  f"{what}: a refusal raised inside is turned into a normal continuation",
-                              label=f"broad handler around {norm(tr.body[0], 100)}")
+                                                  f"{what} (the try body calls {sorted(own)}): a refusal raised inside is turned into a normal continuation",
+                              {"swallows": sorted(sw)}, label=f"broad handler around {norm(tr.body[0], 100)}")
     missing = set(BROAD_HANDLERS) - seen_keys
     if missing:
         ctx.notes.append(f"{rid}: frozen broad-handler sites no longer present: {sorted(missing)}")
@@ -1375,13 +1674,29 @@ def _r6_check_vname(ctx, rid):
     # the reserved-name tables are enforced by a raise
     ccfg = ctx.cfg(chk)
     vparam = chk.params[0]
-    tables = [st for st in ccfg.stmts() if isinstance(st, ast.Assign) and len(st.targets) == 1 and isinstance(st.targets[0], ast.Name)
-              and isinstance(st.value, (ast.List, ast.Tuple, ast.Set)) and st.value.elts
-              and all(isinstance(x, ast.Constant) and isinstance(x.value, str) for x in st.value.elts)]
+
+    def is_table(v):
+        return isinstance(v, (ast.List, ast.Tuple, ast.Set)) and v.elts \
+            and all(isinstance(x, ast.Constant) and isinstance(x.value, str) for x in v.elts)
+    tables = [(st.targets[0].id, st) for st in ccfg.stmts() if isinstance(st, ast.Assign) and len(st.targets) == 1
+              and isinstance(st.targets[0], ast.Name) and is_table(st.value)]
+    local_names = {t for t, _ in tables}
+    # tables hoisted to module level count as well
+    for nm in sorted({n.id for n in walk_shallow(chk.node) if isinstance(n, ast.Name) and isinstance(n.ctx, ast.Load)} - local_names):
+        if ctx.rd(chk).is_local(nm):
+            continue
+        defs = chk.module.assigns.get(nm, [])
+        if len(defs) == 1 and isinstance(defs[0], (ast.Assign, ast.AnnAssign)) and defs[0].value is not None and is_table(defs[0].value):
+            tables.append((nm, defs[0]))
     if not tables:
         raise AnalysisError(f"{rid}: {chk.qual}: no reserved-name table found")
-    for tb in tables:
-        tname = tb.targets[0].id
+
+    def membership(e, d=None):
+        """accept-polarity of `x in y` / `x not in y` (True: the expression is true on a match), None if `e` is no such comparison"""
+        if isinstance(e, ast.Compare) and len(e.ops) == 1 and isinstance(e.ops[0], (ast.In, ast.NotIn)):
+            return isinstance(e.ops[0], ast.In)
+        return None
+    for tname, tb in tables:
         uses = [n for n in walk_shallow(chk.node) if isinstance(n, ast.Name) and n.id == tname and isinstance(n.ctx, ast.Load)]
         enforced, witness = False, None
         for u in uses:
@@ -1394,11 +1709,16 @@ def _r6_check_vname(ctx, rid):
                 tests = [x for x in ast.walk(st) if isinstance(x, ast.If) and any(isinstance(y, ast.Name) and y.id == d for y in ast.walk(x.test))]
             for t in tests:
                 e, neg = _strip_not(t.test)
-                if not (isinstance(e, ast.Compare) and len(e.ops) == 1 and isinstance(e.ops[0], ast.In)) or neg:
+                pol = membership(e)
+                if pol is None and isinstance(e, ast.Call) and isinstance(e.func, ast.Name) and e.func.id == "any" and len(e.args) == 1 \
+                        and isinstance(e.args[0], (ast.GeneratorExp, ast.ListComp)) and len(e.args[0].generators) == 1 \
+                        and not e.args[0].generators[0].ifs:
+                    pol = membership(e.args[0].elt)           # any(part in v for part in table)
+                if pol is None:
                     raise AnalysisError(f"{rid}: {chk.qual}: unrecognised reserved-name test `{ast.unparse(t.test)}`")
                 if not any(isinstance(y, ast.Name) and y.id == vparam for y in ast.walk(t.test)):
                     continue
-                w = branch_returns(ctx, chk, t, "true")
+                w = branch_returns(ctx, chk, t, "true" if pol != neg else "false")
                 if w is None:
                     enforced = True
                 else:
@@ -1422,34 +1742,63 @@ def _r6_single_output(ctx, rid):
                and any(isinstance(a, ast.For) for a in ancestors(st))]
     if not assigns:
         raise AnalysisError(f"{rid}: {f.qual}: `{o.id}` is not assigned inside the variable loop (unrecognised form)")
+    class _Set:
+        """Stands for `some value that is not None` in the three-valued evaluation."""
+        def __bool__(self):
+            return True
+    was_set = _Set()
+    eok = _raise_edge_ok(ctx, f)
+    from engine.dataflow import stmt_defs
+    stores = [st for st in cfg.stmts() if o.id in stmt_defs(st)]
+
+    def refuses(st) -> bool:
+        """`st` hands the current output to a helper that can only raise when it is not None (an extracted guard)."""
+        if isinstance(st, (ast.If, ast.For, ast.While, ast.Try, ast.With)):
+            return False
+        for c in _calls_of_stmt(st):
+            if not any(isinstance(x, ast.Name) and x.id == o.id for x in list(c.args) + [k.value for k in c.keywords]):
+                continue
+            targets, how = ctx.cg.resolve_call(f, c)
+            if how == "external":
+                continue
+            if len(targets) != 1:
+                raise AnalysisError(f"{rid}: {f.qual}: `{o.id}` is handed to `{norm(c, 60)}`, which cannot be resolved; cannot decide whether it "
+                                    f"refuses a second output")
+            g = targets[0]
+            ps = [k for k, v in _bind_args(g, c).items() if isinstance(v, ast.Name) and v.id == o.id]
+            if len(ps) == 1 and not _stores(g, ps[0]):
+                gcfg = ctx.cfg(g)
+                if find_path(gcfg, [gcfg.ENTRY], lambda n: n is gcfg.EXIT, env={ps[0]: was_set}, edge_ok=_raise_edge_ok(ctx, g)) is None:
+                    return True
+        return False
+
     for a in assigns:
         loop = [x for x in ancestors(a) if isinstance(x, ast.For)][0]
-        guard = None
-        for g in ancestors(a):
-            if g is loop:
-                break
-            if isinstance(g, ast.If) and isinstance(g.test, ast.Compare) and len(g.test.ops) == 1 and isinstance(g.test.left, ast.Name) \
-                    and g.test.left.id == o.id and isinstance(g.test.comparators[0], ast.Constant) and g.test.comparators[0].value is None \
-                    and isinstance(g.test.ops[0], (ast.Is, ast.IsNot, ast.Eq, ast.NotEq)):
-                guard = g
-                break
-        if guard is None:
-            ctx.violation(rid, f, a, f"`{norm(a)}` is not guarded by a test that `{o.id}` is still None: a second output declaration silently "
-                                     f"replaces the first instead of raising")
-            continue
-        first_on_true = isinstance(guard.test.ops[0], (ast.Is, ast.Eq))
-        in_true = any(contains(b, a) for b in guard.body)
-        if in_true != first_on_true:
-            ctx.violation(rid, f, a, f"`{norm(a)}` sits on the branch where `{o.id}` is already set")
-            continue
-        other = "false" if in_true else "true"
-        starts = succ(cfg, guard, other)
-        w = find_path(cfg, starts, lambda n: n is cfg.EXIT or n is loop, edge_ok=_raise_edge_ok(ctx, f))
+        starts = succ(cfg, loop, "iter")
+        others = [st for st in stores if st is not a] + [loop]      # stay within one iteration, with `output` unchanged
+        # a second declaration: `output` already holds a name; is there a way from the top of the iteration to the assignment?
+        w = find_path(cfg, starts, lambda n: n is a, avoid=lambda n: any(n is x for x in others) or (isinstance(n, ast.stmt) and refuses(n)),
+                      env={o.id: was_set}, edge_ok=eok)
+        first = None
         if w is None:
-            ctx.ok(rid, f, a, "a second output declaration can only raise", {"guard": norm(guard)})
+            # non-vacuity: the first declaration (output still None) does reach the assignment
+            first = find_path(cfg, starts, lambda n: n is a, avoid=lambda n: any(n is x for x in others), env={o.id: None}, edge_ok=eok)
+            if first is None:
+                raise AnalysisError(f"{rid}: {f.qual}: `{norm(a)}` is not reachable within one iteration while `{o.id}` is None (unrecognised form)")
+        tests = [n for n in (first or []) if isinstance(n, (ast.If, ast.While)) and any(isinstance(x, ast.Name) and x.id == o.id for x in ast.walk(n.test))]
+        if w is None:
+            ctx.ok(rid, f, a, "a second output declaration can only raise", {"guard": norm(tests[0]) if tests else "helper"})
+        elif not any(isinstance(n, (ast.If, ast.While)) and any(isinstance(x, ast.Name) and x.id == o.id for x in ast.walk(n.test)) for n in w):
+            ctx.violation(rid, f, a, f"`{norm(a)}` is not guarded by a test that `{o.id}` is still None: a second output declaration silently "
+                                     f"replaces the first instead of raising", {"witness": cfg.path_str(w)})
         else:
-            ctx.violation(rid, f, a, f"when a second variable is declared as output the loop continues ({cfg.path_str([guard] + w)}) instead of "
-                                     f"raising: more than one output per operator is accepted silently", {"guard": norm(guard)})
+            undecided = [n for n in w if isinstance(n, (ast.If, ast.While)) and any(isinstance(x, ast.Name) and x.id == o.id for x in ast.walk(n.test))
+                         and _truth(ev(n.test, {o.id: was_set})) is UNK]
+            if undecided:
+                raise AnalysisError(f"{rid}: {f.qual}: cannot evaluate the output guard `{ast.unparse(undecided[0].test)}` for an output that is "
+                                    f"already set (unrecognised form)")
+            ctx.violation(rid, f, a, f"when a second variable is declared as output the loop reaches `{norm(a)}` ({cfg.path_str(w)}) instead of "
+                                     f"raising: more than one output per operator is accepted silently", {"witness": cfg.path_str(w)})
 
 
 def _r6_leftover_updates(ctx, rid):
